@@ -1023,15 +1023,20 @@ func (d *decoderState) consumeObject(flags *jsonwire.ValueFlags, pos, depth int)
 		if !d.Flags.Get(jsonflags.AllowDuplicateNames) && !names.insertQuoted(quotedName, flags2.IsVerbatim()) {
 			return pos - n, wrapWithObjectName(ErrDuplicateName, quotedName)
 		}
+		// Fetching more data may move or replace d.buf, so remember where
+		// the name is in absolute terms and re-slice it before reporting it.
+		nameOffset := d.baseOffset + int64(pos-n)
 
 		// Handle after name.
 		pos += jsonwire.ConsumeWhitespace(d.buf[pos:])
 		if d.needMore(pos) {
 			if pos, err = d.consumeWhitespace(pos); err != nil {
+				quotedName = d.buf[nameOffset-d.baseOffset:][:n]
 				return pos, wrapWithObjectName(err, quotedName)
 			}
 		}
 		if d.buf[pos] != ':' {
+			quotedName = d.buf[nameOffset-d.baseOffset:][:n]
 			err := jsonwire.NewInvalidCharacterError(d.buf[pos:], "after object name (expecting ':')")
 			return pos, wrapWithObjectName(err, quotedName)
 		}
@@ -1041,11 +1046,13 @@ func (d *decoderState) consumeObject(flags *jsonwire.ValueFlags, pos, depth int)
 		pos += jsonwire.ConsumeWhitespace(d.buf[pos:])
 		if d.needMore(pos) {
 			if pos, err = d.consumeWhitespace(pos); err != nil {
+				quotedName = d.buf[nameOffset-d.baseOffset:][:n]
 				return pos, wrapWithObjectName(err, quotedName)
 			}
 		}
 		pos, err = d.consumeValue(flags, pos, depth)
 		if err != nil {
+			quotedName = d.buf[nameOffset-d.baseOffset:][:n]
 			return pos, wrapWithObjectName(err, quotedName)
 		}
 
